@@ -134,14 +134,16 @@ def check_one(ctx, g, label, cases, obs, reqs):
         ctx.violate(case, f"infer_types changed the graph's {what}", {**sig, "what": "frame-" + what})
         return
     types1 = types_snapshot(graph)
-    untouched = [k for k in types0 if k not in reach and types0[k] != types1[k]]
+    untouched = [k for k in types0 if k not in reach and types0[k] != types1.get(k)]
     if untouched:
         ctx.violate(case, "infer_types touched a node that is not reachable from an Input", {**sig, "what": "unreachable-touched"},
                     observed=untouched)
         return
     if err is None:
-        undefined = [k for k in reach if any(v is None for v in (graph.nodes[k].input_type or {"x": None}).values())
-                     or any(v is None for v in (graph.nodes[k].output_type or {"x": None}).values())]
+        def undef(t):
+            return t is None or any(v is None for v in t.values())
+        undefined = [k for k in reach if k in graph.nodes and not isinstance(graph.nodes[k], nir.NIRGraph)
+                     and (undef(graph.nodes[k].input_type) or undef(graph.nodes[k].output_type))]
         if undefined:
             ctx.violate(case, "a node reachable from an Input was left without a type", {**sig, "what": "reach-undefined"},
                         observed=undefined)
